@@ -149,7 +149,7 @@ func runC13(c *Ctx, nm c13Names, fx bool) {
 		return n
 	}
 	c.Rule("C13-N1", "row-count handlers folded over row shapes x CLIENT_FOUND_ROWS yield MySQL's documented affected/matched accounting", floor(29))
-	c.Rule("C13-N2", "getRowHandler gives every DML iterator kind the handler of the same statement kind, forwards the found-rows flag, couples iterator and handler, is total over the wrapped iterators", floor(25))
+	c.Rule("C13-N2", "getRowHandler gives every DML iterator kind the handler of the same statement kind, forwards the found-rows flag, couples iterator and handler, is total over the wrapped iterators", floor(24))
 	c.Rule("C13-N3", "accumulatorIter.Next: each child row reaches the handler exactly once, the result is emitted once and only at io.EOF, errors are returned without a result", floor(4))
 	c.Rule("C13-N4", "between two pulls of its source the REPLACE iterator deletes at most one existing row per emitted row", floor(1))
 
